@@ -85,7 +85,7 @@ theorem closed_ok : ClosedOK prog exports imports closed := by
   · exact closed_GetMnemonic
 
 /-- the entry points as table indexes (same order as `MW.Model.Api.roots`) -/
-def rootIdList : List Nat := [Fn.GetClientStatus, Fn.QuitClient, Fn.SignRawTransaction, Fn.CreateAddress, Fn.GetAddresses_api, Fn.ValidateAddress, Fn.GetWalletBalance, Fn.GetAddressBalance, Fn.UseWallet_api, Fn.Wallets_api, Fn.GetUtxo_api, Fn.ImportWallet_api, Fn.ImportMnemonic, Fn.CreateWallet_api, Fn.ExportWallet_api, Fn.RemoveWallet_api, Fn.GetWalletMnemonic, Fn.GetTxStatus, Fn.GetRawTransaction, Fn.DecodeRawTransaction, Fn.CreateRawTransaction_api, Fn.CreateStakingTransaction_api, Fn.CreateBindingTransaction_api, Fn.CreatePoolPkCoinbaseTransaction, Fn.AutoCreateTransaction, Fn.GetTransactionFee, Fn.TxHistory, Fn.GetStakingHistory_api, Fn.GetBindingHistory_api, Fn.SendRawTransaction, Fn.GetNetworkBinding, Fn.CheckPoolPkCoinbase, Fn.CheckTargetBinding, Fn.handle, Fn.worker, Fn.processConnectedBlock, Fn.proccessReceivedTx, Fn.asyncImport, Fn.asyncRemove, Fn.NewNtfnsHandler, Fn.Start_wm, Fn.Stop_wm, Fn.GetAllAddressesWithPubkey]
+def rootIdList : List Nat := [Fn.GetClientStatus, Fn.QuitClient, Fn.SignRawTransaction, Fn.CreateAddress, Fn.GetAddresses_wallet_service, Fn.ValidateAddress, Fn.GetWalletBalance, Fn.GetAddressBalance, Fn.UseWallet_wallet_service, Fn.Wallets_wallet_service, Fn.GetUtxo_wallet_service, Fn.ImportWallet_wallet_service, Fn.ImportMnemonic, Fn.CreateWallet_wallet_service, Fn.ExportWallet_wallet_service, Fn.RemoveWallet_wallet_service, Fn.GetWalletMnemonic, Fn.GetTxStatus, Fn.GetRawTransaction, Fn.DecodeRawTransaction, Fn.CreateRawTransaction_tx_service, Fn.CreateStakingTransaction_tx_service, Fn.CreateBindingTransaction_tx_service, Fn.CreatePoolPkCoinbaseTransaction, Fn.AutoCreateTransaction, Fn.GetTransactionFee, Fn.TxHistory, Fn.GetStakingHistory_tx_service, Fn.GetBindingHistory_tx_service, Fn.SendRawTransaction, Fn.GetNetworkBinding, Fn.CheckPoolPkCoinbase, Fn.CheckTargetBinding, Fn.handle, Fn.worker, Fn.processConnectedBlock, Fn.proccessReceivedTx, Fn.asyncImport, Fn.asyncRemove, Fn.NewNtfnsHandler, Fn.Start_wallet, Fn.Stop_wallet, Fn.GetAllAddressesWithPubkey]
 
 theorem rootIdList_eq : rootIdList = rootIds := by decide +kernel
 
